@@ -16,7 +16,7 @@ def run(ctx):
         ctx.add_model(res)
     stages.chan_family(ctx, ["C09."], lambda s: any(e["call"] == "cleanup" for e in s["env"]))
     stages.mgr_family(ctx, ["C09."], ["all"], lambda s: s["stim"]["kind"] in ("Close", "CloseErr") or any(t["call"] == "cleanup" for t in s["tr"]),
-                      quick_n=3000, model=not ctx.quick(), sims=True, invariants=["M_C09_Close"])
+                      quick_n=3000, model=not ctx.quick(), sims=True, invariants=["M_C09_Close"], keep=lambda l: any(k in l for k in ('"kind":"Close"', '"kind":"CloseErr"', '"kind":"Cancel"')))
     # transport level: the REAL graphsync adapter's CloseChannel in every request state x gs.Cancel outcome, under virtual time
     b = ctx.go_bin("gstx")
     out = ctx.path("closeobs.ndjson")
